@@ -75,6 +75,7 @@ struct Sim {
   long max_cycles = 200000;
   // fault injection
   long fault_countdown = -1;   // >=0: inject when reaches 0
+  long compile_skip = -1, compile_room = -1;   // compileroom fault: see kernel.cpp do_step
   std::string fault_kind;
   long faults_fired = 0;
   bool in_backend = false;
